@@ -81,7 +81,7 @@ def params_for(model, pv, inst=None):
     elif model == 'Vaccinate':
         d = {ep.Opinion.P_AFFECTED: pv['pSeed'], ep.Opinion.P_AFFECT: pv['pInfect'], ep.Opinion.P_STIFLE: pv['pRemove'],
              ep.Vaccinate.P_VACCINATE: pv['pAux']}
-    if inst is not None and model not in ('SEIR', 'Opinion', 'Vaccinate', 'SIS_FixedRecovery', 'SIR_FixedRecovery'):
+    if inst is not None and model not in ('SEIR', 'Opinion', 'Vaccinate'):
         d = {k + '@' + inst: v for k, v in d.items()}
     return d
 
@@ -133,9 +133,14 @@ def gen_case(rnd, model=None, dynamics=None, **kw):
     case = {'model': model, 'dynamics': dynamics, 'graph': gen_graph(rnd, **kw), 'pv': gen_params(rnd, dynamics),
             'seed': rnd.randrange(1 << 30), 'inst': rnd.choice([None, None, 'a']), 'seq': rnd.random() < 0.3,
             'maxtime': rnd.choice([2.0, 3.0, 4.0]) if dynamics == 'synchronous' else rnd.choice([1.5, 3.0, 6.0]),
-            'vacc': [], 'prerun': rnd.random() < 0.3}
+            'vacc': [], 'prerun': rnd.random() < 0.3, 'second': None}
     if model == 'SIvR':
         case['vacc'] = [n for n in case['graph']['nodes'] if rnd.random() < 0.5]
+    nameable = ('SIR', 'SIS', 'SIRS', 'SIR_FixedRecovery', 'SIS_FixedRecovery')
+    if model in nameable and rnd.random() < 0.25:
+        # two named instances of disease models on one network (the whole-run Coq tie covers single instances only)
+        case['inst'] = 'a'
+        case['second'] = {'model': rnd.choice(nameable), 'inst': 'b', 'pv': gen_params(rnd, dynamics)}
     return case
 
 
@@ -175,6 +180,13 @@ def run_case(case):
         params[Monitor.DELTA] = case.get('delta', 0.5)
         top = ProcessSequence([mon, proc])
         procs = [mon, proc]
+    second = case.get('second')       # {'model', 'inst', 'pv'}: another named instance on the same network
+    proc2 = None
+    if second:
+        proc2 = models()[second['model']](second['inst'])
+        params.update(params_for(second['model'], second['pv'], second['inst']))
+        procs = procs + [proc2]
+        top = ProcessSequence(procs)
     top.setMaximumTime(case['maxtime'])
     dcls = ep.StochasticDynamics if case['dynamics'] == 'stochastic' else ep.SynchronousDynamics
     dyn = dcls(top, g)
@@ -185,11 +197,20 @@ def run_case(case):
     state = {'posted': 0, 'started': False}
     index = {id(p): i for i, p in enumerate(procs)}
     compvar = proc.COMPARTMENT
+    compvars = {index[id(proc)]: proc.COMPARTMENT}
+    if proc2 is not None:
+        compvars[index[id(proc2)]] = proc2.COMPARTMENT
 
-    def comps():
-        return {n: dyn.network().nodes[n].get(compvar) for n in dyn.network().nodes()}
+    def comps(cv=None):
+        cv = cv or compvar
+        return {n: dyn.network().nodes[n].get(cv) for n in dyn.network().nodes()}
 
-    def wrap(locus, ef, name, registered):
+    def comps_by():
+        return {pi: comps(cv) for pi, cv in compvars.items()}
+
+    def wrap(locus, ef, name, registered, pi=None):
+        compvar = compvars.get(pi, proc.COMPARTMENT)
+
         def w(t, e):
             if state['posted'] > 0 or not registered:
                 member = None
@@ -202,7 +223,7 @@ def run_case(case):
             else:
                 ends = [net.nodes[e].get(compvar) if e in net else '<gone>']
                 isedge = None
-            entries.append({'fn': getattr(ef, '__name__', str(ef)), 'name': name, 'locus': locus.name() if hasattr(locus, 'name') else None, 'li': lindex(locus), 't': t, 'e': e, 'clock': dyn.currentSimulationTime(),
+            entries.append({'pi': pi, 'fn': getattr(ef, '__name__', str(ef)), 'name': name, 'locus': locus.name() if hasattr(locus, 'name') else None, 'li': lindex(locus), 't': t, 'e': e, 'clock': dyn.currentSimulationTime(),
                             'member': member, 'ends': ends, 'isedge': isedge, 'posted': state['posted'] > 0,
                             'vacc': (net.nodes[e[0]].get(ep.SIvR.VACCINATED), net.nodes[e[0]].get(ep.SIvR.VACCINATION_TIME)) if (model == 'SIvR' and isinstance(e, tuple)) else None,
                             'nrand0': len(orc.log)})
@@ -234,7 +255,7 @@ def run_case(case):
                 for (l, pr, ef, name) in evs:
                     registration.setdefault(index.get(id(p), -1), []).append({'kind': kind, 'locus': l.name() if hasattr(l, 'name') else str(l), 'li': lindex(l), 'p': pr,
                                                                                'fn': getattr(ef, '__name__', str(ef)), 'name': name})
-                    new.append((l, pr, wrap(l, ef, name, True), name))
+                    new.append((l, pr, wrap(l, ef, name, True, index.get(id(p), -1)), name))
                 setattr(p, attr, new)
         from epydemic.opinion_model import MultiCompartmentedEdgeLocus
         for nm, l in dyn.loci().items():
@@ -248,16 +269,16 @@ def run_case(case):
                 lspecs.append([nm, 'plain'])
         if model == 'SIR_VariableInfection':
             orig_infect = state.setdefault('orig_infect', proc.infect)
-            proc.infect = wrap(proc.locus(ep.SIR.SI), orig_infect, ep.SIR.INFECTED, True)
+            proc.infect = wrap(proc.locus(ep.SIR.SI), orig_infect, ep.SIR.INFECTED, True, index[id(proc)])
         for n in case.get('vacc', []):
             proc.vaccinateNode(0.0, n)
-        snaps.append({'t': 0.0, 'name': '<start>', 'e': None, 'pi': -1, 'comps': comps(),
+        snaps.append({'t': 0.0, 'name': '<start>', 'e': None, 'pi': -1, 'comps': comps(), 'comps_by': comps_by(),
                       'loci': {k: list(l) for k, l in dyn.loci().items()},
                       'infectivity': {tuple(sorted((a, b))): d.get(getattr(proc, 'INFECTIVITY', '?')) for a, b, d in dyn.network().edges(data=True)}})
     dyn.simulationStarted = started
 
     def tap(t, p, name, e):
-        snaps.append({'t': t, 'name': name, 'e': e, 'pi': index.get(id(p), -1), 'comps': comps(),
+        snaps.append({'t': t, 'name': name, 'e': e, 'pi': index.get(id(p), -1), 'comps': comps(), 'comps_by': comps_by(),
                       'loci': {k: len(l) for k, l in dyn.loci().items()}, 'posted': state['posted'] > 0})
         if len(snaps) > 400:
             raise kscript.Budget('run exceeds the harness budget')
@@ -278,6 +299,7 @@ def run_case(case):
         final['nodes'] = {n: dict(d) for n, d in net.nodes(data=True)}
         final['edges'] = [(a, b, dict(d)) for a, b, d in net.edges(data=True)]
         final['comps'] = comps()
+        final['comps_by'] = comps_by()
         final['loci'] = {k: list(l) for k, l in dyn.loci().items()}
         try:
             sk = proc.skeletonise()
@@ -341,7 +363,7 @@ def run_case(case):
            'results': {k: v for k, v in res.items() if isinstance(v, (int, float))} if isinstance(res, dict) else {},
            'time': md.get(Dynamics.TIME), 'events': md.get(Dynamics.EVENTS), 'steps': md.get(SynchronousDynamics.TIMESTEPS_WITH_EVENTS, 0),
            'rands': [e[1] for e in orc.values('random')], 'lns': list(rec.logs), 'draws': [d[1] for d in rec.draws],
-           'inst': inst, 'order': g.order(), 'events_log': [(s['t'], s['name'], s['e']) for s in snaps[1:]]}
+           'inst': inst, 'order': g.order(), 'primary_pi': index[id(proc)], 'second_pi': index[id(proc2)] if proc2 is not None else None, 'events_log': [(s['t'], s['name'], s['e']) for s in snaps[1:]]}
     if exc and exc.startswith('Budget'):
         obs['skipped'] = True
     return obs
@@ -350,6 +372,8 @@ def run_case(case):
 # ---------------------------------------------------------------- direct oracles
 
 def direct_c05(case, obs):
+    if case.get('second') and not obs.get('skipped') and not obs.get('exception'):
+        return _dedup([v for c, o in views(case, obs) for v in direct_c05(dict(c, second=None), o)])
     if obs.get('skipped'):
         return []
     if obs['exception']:
@@ -382,6 +406,8 @@ def _dedup(v):
 
 
 def direct_c07(case, obs):
+    if case.get('second') and not obs.get('skipped') and not obs.get('exception') and 'comps_by' in (obs.get('snaps') or [{}])[0]:
+        return _dedup([v for c, o in views(case, obs) for v in direct_c07(dict(c, second=None), o)])
     import epydemic as ep
     if obs.get('skipped'):
         return []
@@ -409,6 +435,8 @@ def direct_c07(case, obs):
     fin = obs['final'].get('comps', {})
     tot = 0
     for c in sp['comps']:
+        if c in obs.get('results_overwritten', ()):
+            continue
         key = c if obs['inst'] is None else c     # results are keyed by compartment name
         true = sum(1 for x in fin.values() if x == c)
         got = obs['results'].get(key)
@@ -417,7 +445,7 @@ def direct_c07(case, obs):
         if got != true:
             v.append({'signature': 'results-count-wrong:' + model, 'detail': {'compartment': c, 'reported': got, 'true': true}})
         tot += got or 0
-    if tot != obs['order']:
+    if tot != obs['order'] and not obs.get('results_overwritten'):
         v.append({'signature': 'results-do-not-sum-to-order:' + model, 'detail': {'sum': tot, 'order': obs['order']}})
     # infection only through an edge to a neighbour that is infectious at that very moment
     for en in obs['entries']:
@@ -487,6 +515,10 @@ def direct_c08(case, obs):
         return []
     model = case['model']
     if model in ('SIvR', 'Vaccinate'):
+        return []
+    if case.get('second'):
+        # two named instances share the undecorated tOccupied / tHitting attributes by the library's own declaration,
+        # so the contact-tree clauses are per single instance (stated in the claim)
         return []
     if obs['exception']:
         return [{'signature': 'run-raised:' + model + ':' + obs['exception'].split(':')[0], 'detail': obs['exception']}]
@@ -603,3 +635,23 @@ def direct_c03(case, obs):
     if obs['events'] != len(taps):
         v.append({'signature': 'event-count-mismatch:shipped', 'detail': {'EVENTS': obs['events'], 'taps': len(taps)}})
     return _dedup(v)
+
+
+def views(case, obs):
+    """one (case, obs) pair per disease instance of the run, in the shape the direct oracles expect"""
+    if not case.get('second') or obs.get('skipped') or obs.get('exception'):
+        return [(case, obs)]
+    out = []
+    for pi, model, inst, pv in ((obs['primary_pi'], case['model'], obs['inst'], case['pv']),
+                                (obs['second_pi'], case['second']['model'], case['second']['inst'], case['second']['pv'])):
+        c = dict(case, model=model, inst=inst, pv=pv)
+        o = dict(obs)
+        o['inst'] = inst
+        o['entries'] = [e for e in obs['entries'] if e.get('pi') == pi]
+        o['snaps'] = [dict(s, comps=s['comps_by'][pi]) for s in obs['snaps']]
+        o['final'] = dict(obs['final'], comps=obs['final']['comps_by'][pi])
+        o['registration'] = {pi: obs['registration'].get(pi, [])}
+        # results() keys are undecorated compartment names: a later instance of a model with the same compartments wins (C11)
+        o['results_overwritten'] = set(spec(case['second']['model'])['comps']) if pi == obs['primary_pi'] else set()
+        out.append((c, o))
+    return out
